@@ -122,3 +122,37 @@ Example f64_run_exists :
     /\ prologue Debug [3; 1; 4; 1; 5; 9; 2; 6; 5; 3]%float 5 = Ok M0
     /\ forallb (fun v => PrimFloat.ltb v infinity) [3; 1; 4; 1; 5; 9; 2; 6; 5; 3]%float = true.
 Proof. eexists _, _. split; [vm_compute; reflexivity|]. split; vm_compute; reflexivity. Qed.
+
+(* ---- C01 / C12 on the float carriers for the selection methods: linkage, mst
+   and nnchain with single or complete on a NaN-free well-formed matrix ---- *)
+Require Import KV.Model.Chain.
+
+Theorem selection_total_wf_f64 (p : profile) (a : algo) (meth : method) s d (m : list PrimFloat.float) (n : N) :
+  a = ALinkage \/ a = AMst \/ a = ANnchain -> meth = Single \/ meth = Complete ->
+  (n < two32)%N -> wf_shape n (N.of_nat (length m)) ->
+  Forall (fun v => PrimFloat.is_nan v = false) m ->
+  (exists s' d' m', run_with F64 p a meth s d m n = Ok (s', d', m') /\ wf_dend (d_obs d') (d_steps d'))
+  \/ run_with F64 p a meth s d m n = Panic PNaN.
+Proof.
+  intros Ha Hm Hn Hs Hok.
+  apply (@selection_total_wf_carrier _ F64 ok64 eq_refl eq_refl f64_ltb_irrefl f64_ltb_trans
+           ltac:(intros x y z Hx Hy Hz; apply f64_ltb_negtrans; unfold ok64 in *;
+                 [destruct (PrimFloat.is_nan x)|destruct (PrimFloat.is_nan y)|destruct (PrimFloat.is_nan z)]; (reflexivity || discriminate))
+           p a meth s d m n Ha Hm Hn Hs).
+  eapply Forall_impl; [|exact Hok]. intros v Hv. unfold ok64. rewrite Hv. reflexivity.
+Qed.
+
+Theorem selection_total_wf_f32 (p : profile) (a : algo) (meth : method) s d (m : list f32) (n : N) :
+  a = ALinkage \/ a = AMst \/ a = ANnchain -> meth = Single \/ meth = Complete ->
+  (n < two32)%N -> wf_shape n (N.of_nat (length m)) ->
+  Forall (fun v => BinarySingleNaN.is_nan v = false) m ->
+  (exists s' d' m', run_with F32 p a meth s d m n = Ok (s', d', m') /\ wf_dend (d_obs d') (d_steps d'))
+  \/ run_with F32 p a meth s d m n = Panic PNaN.
+Proof.
+  intros Ha Hm Hn Hs Hok.
+  apply (@selection_total_wf_carrier _ F32 ok32 eq_refl eq_refl (@Bltb_irrefl 24 128) (@Bltb_trans 24 128)
+           ltac:(intros x y z Hx Hy Hz; apply (@Bltb_negtrans 24 128); unfold ok32 in *;
+                 [destruct (BinarySingleNaN.is_nan x)|destruct (BinarySingleNaN.is_nan y)|destruct (BinarySingleNaN.is_nan z)]; (reflexivity || discriminate))
+           p a meth s d m n Ha Hm Hn Hs).
+  eapply Forall_impl; [|exact Hok]. intros v Hv. unfold ok32. rewrite Hv. reflexivity.
+Qed.
